@@ -66,6 +66,13 @@ def stepC24 : List String → String
       match ps.mapM prod? with
       | some l => " ".intercalate ((sortProducers l).map (fun (p : Producer × List Nat) => hexOf p.1.key))
       | none => "bad-op"
+  | ["crchange", a, b, o] =>
+      match nat? a, nat? b, nat? o with
+      | some a, some b, some o =>
+          match ownerOf (syncRun ⟨[], [(a, o)]⟩ b o) b with
+          | some x => "ownerB=02" ++ hexOf [x] ++ " inactive=true"
+          | none => "ownerB=none inactive=false"
+      | _, _, _ => "bad-op"
   | ["crmembers", _reps, dids] =>
       match (dids.splitOn ",").mapM bytesOf? with
       | some l => ",".intercalate ((l.toArray.qsort (fun a b => didLt a b)).toList.map hexOf)
